@@ -145,6 +145,23 @@ def search(ctx):
             wit.append({'suite': 'loss-search-%s' % variant, 'input': ' '.join(args), 'expected': 'harness completes',
                         'observed': 'exit %d: %s' % (rc, err[-600:]), 'why': 'search harness died'})
         samples.append('%s %s: %s' % (variant, ' '.join(args), (m.group(0) if m else 'no summary')))
+    # CELT loss_duration predicate on the implementation
+    hc = c01.harness(ctx, 'c09_celtloss', 'san')
+    args = ['run', str(ctx.seed + 3000), '400' if ctx.quick else '4000', 'quiet']
+    rc, out, err = c01._run_search(hc, args, 3000)
+    m = re.search(r'# celtloss seed=\d+ decoders=\d+ cases=(\d+) witnesses=(\d+)', out)
+    if m:
+        cases += int(m.group(1))
+    for line in out.split('\n'):
+        if line.startswith('W '):
+            kind, what, inp = (line[2:].split(' | ') + ['', ''])[:3]
+            kinds[kind] = kinds.get(kind, 0) + 1
+            wit.append({'suite': 'celt-loss-search', 'input': inp, 'expected': 'loss_duration in [previous, 10000], 0 after a decoded frame',
+                        'observed': what, 'why': '%s (reproduce: %s %s)' % (kind, os.path.basename(hc), ' '.join(args))})
+    if rc != 0 and not m:
+        wit.append({'suite': 'celt-loss-search', 'input': ' '.join(args), 'expected': 'harness completes',
+                    'observed': 'exit %d: %s' % (rc, err[-600:]), 'why': 'search harness died'})
+    samples.append('san %s: %s' % (' '.join(args), (m.group(0) if m else 'no summary')))
     return {'cases': cases, 'distinct': len(kinds), 'oracle': search.__doc__, 'samples': samples, 'witnesses': wit[:20],
             'witness_kinds': kinds, 'statistics': stats, 'thresholds': CALIB['thresholds'],
             'calibrated_max': CALIB['observed_max']}
